@@ -102,12 +102,8 @@ pub fn roundtrip(start: usize, entries: &[Vec<u8>]) -> Result<usize, String> {
         }
         let mut reported_total = 0u64;
         for entry in entries {
-            let before = verif_api::underlying(&writer).bytes.len();
+            // (the byte count write_record reports is C15's concern, not checked here)
             let reported = writer.write_record(Raw(entry)).map_err(|err| format!("write_record: {err}"))?;
-            let after = verif_api::underlying(&writer).bytes.len();
-            if reported != (after - before) as u64 {
-                return Err(format!("write_record reported {reported} bytes but the writer advanced by {}", after - before));
-            }
             reported_total += reported;
             expected.push(entry);
         }
@@ -216,7 +212,7 @@ impl Property for C07 {
     fn rule(&self) -> String {
         "route 1 (in memory, through the hook's re-exports of the record layer): a filler entry puts the write cursor at a \
          chosen in-block offset, then entries (raw byte strings, xorshift content) are written and everything is read back; \
-         oracle = identity, in order, nothing extra, and write_record's byte count == cursor advance. A dense GRID is \
+         oracle = identity, in order, nothing extra. A dense GRID is \
          enumerated, not sampled: remaining-space in {0..40} u {BLOCK-40..BLOCK} (offsets 1..6 are unreachable by \
          construction) x entry length in {0..40} u {k*32761 + d : k in 1..9, |d| <= 20} (thorough: remaining-space up to 120, |d| <= 48) x \
          follower in {nothing, empty entry, 9-byte entry, entry filling the rest of the block exactly}; plus generated \
